@@ -519,6 +519,12 @@ func OidFromString(s string) (asn1.ObjectIdentifier, error) {
 			return nil, err
 		}
 
+		//larger arcs can be written, but encoding/asn1 refuses to read them:
+		//the certificate (and the key next to it) would be lost to the next run
+		if n > math.MaxInt32 {
+			return nil, fmt.Errorf("cert: arc %v of oid '%v' is too large (at most %v)", number, s, math.MaxInt32)
+		}
+
 		oid[i] = n
 	}
 
